@@ -12,6 +12,8 @@ fn operands(tier: Tier) -> Vec<&'static str> {
   let mut v = vec![
     "int", "uint", "nint", "tstr", "bool", "nil", "float", "number", "any", "1", "-1", "\"a\"", "1.5", "0..2", "[int]", "[* int]", "{a: int}", "(int / tstr)", "tc",
     "tstr .size 1", "true",
+    // an array target under .ne next to the literal array it excludes (state left behind by a failed arm)
+    "[int] .ne [1]", "[1]",
   ];
   if tier == Tier::Thorough {
     v.extend(["[int, tstr]", "{* tstr => int}", "int .ge 1", "-1..1", "0.5..1.5", "[* tc]", "ti", "false", "null", "2"]);
@@ -47,6 +49,33 @@ pub struct Docs {
 
 fn documents(tier: Tier) -> Docs {
   let mut rv = json_universe(Tier::Quick);
+  // one-element arrays in every context position
+  let (one, two) = (RV::Array(vec![RV::Uint(1)]), RV::Array(vec![RV::Uint(2)]));
+  for d in [one.clone(), two.clone()] {
+    for w in [
+      RV::Array(vec![d.clone()]),
+      RV::Array(vec![RV::Text("a".into()), d.clone()]),
+      RV::Map(vec![(RV::Text("a".into()), d.clone())]),
+      RV::Map(vec![(RV::Text("b".into()), RV::Text("x".into())), (RV::Text("a".into()), d.clone())]),
+      RV::Array(vec![RV::Uint(1), d.clone()]),
+    ] {
+      if !rv.contains(&w) {
+        rv.push(w);
+      }
+    }
+  }
+  for w in [
+    RV::Array(vec![RV::Uint(1), RV::Uint(2)]),
+    RV::Array(vec![RV::Uint(1), RV::Uint(2), RV::Uint(3)]),
+    RV::Array(vec![RV::Text("a".into()), RV::Uint(1), RV::Uint(2)]),
+    RV::Array(vec![RV::Uint(1), RV::Text("a".into()), RV::Uint(2), RV::Text("b".into())]),
+    RV::Array(vec![RV::Uint(1), RV::Text("a".into()), RV::Uint(2)]),
+    RV::Map(vec![(RV::Text("x".into()), RV::Array(vec![RV::Uint(1), RV::Uint(2)]))]),
+  ] {
+    if !rv.contains(&w) {
+      rv.push(w);
+    }
+  }
   let njson = rv.len();
   // CBOR-only documents (for the CBOR validator only)
   let extra = cbor_extra(Tier::Quick);
@@ -101,6 +130,9 @@ fn relations(tier: Tier) -> Vec<Rel> {
           law: |x, _| x[0] == (x[1] || x[2]) && x[3] == x[0],
           text: "A / B accepts exactly when A or B does, in either order",
         });
+        if a.contains(".ne [") || b.contains(".ne [") {
+          continue; // array-valued .ne operands take part in the choice law only
+        }
         let (pa, pb) = (t2(a), t2(b));
         out.push(Rel {
           name: "and-within",
@@ -218,6 +250,22 @@ fn relations(tier: Tier) -> Vec<Rel> {
         text: "a prelude name accepts exactly what its RFC 8610 Appendix D definition accepts",
       });
     }
+  }
+  // a right-recursive group rule unfolds to an occurrence (re-entering a rule after elements were consumed is
+  // ordinary recursion, not a loop)
+  for (rec, flat) in [
+    ("r = [a]\na = (int, ? a)", "r = [+ int]"),
+    ("r = [tstr, a]\na = (int, ? a)", "r = [tstr, + int]"),
+    ("r = [a]\na = (int, tstr, ? a)", "r = [+ (int, tstr)]"),
+    ("r = [* a]\na = (int, tstr)", "r = [* (int, tstr)]"),
+    ("r = {x: [a]}\na = (int, ? a)", "r = {x: [+ int]}"),
+  ] {
+    out.push(Rel {
+      name: "recursive-group",
+      schemas: vec![format!("{rec}{LIB}"), format!("{flat}{LIB}")],
+      law: |x, _| x[0] == x[1],
+      text: "a right-recursive group rule accepts exactly what its unfolding as an occurrence accepts",
+    });
   }
   out
 }
